@@ -6,7 +6,7 @@ from __future__ import annotations
 import ast
 import copy
 import itertools
-from typing import Dict, FrozenSet, Iterable, Iterator, List, Optional, Sequence, Set, Tuple
+from typing import Callable, Dict, FrozenSet, Iterable, Iterator, List, Optional, Sequence, Set, Tuple
 
 from . import cfg as cfgm
 from .cfg import CFG, Builder, Node, is_back, is_exc
@@ -238,6 +238,71 @@ class Analysis:
         spellings unified (see `canon`)."""
         x = self.expand(e, fi, stop=stop) if (expand and fi is not None) else copy.deepcopy(e)
         return norm(canon(x))
+
+    def rvalues(self, fi: FunctionInfo, e: ast.expr, at: ast.AST, g: Optional[CFG] = None, start: Optional[Node] = None,
+                keep: Optional[Callable[[str], bool]] = None, depth: int = 3) -> List[Tuple[Conj, str]]:
+        """Reaching conditional values of expression `e` at statement `at`: for every acyclic path
+        to `at`, locals in `e` are replaced by their last definition on that path (recursively, to
+        `depth`), conditional expressions are split; the result is a list of (path guard, canonical
+        value text), merged per value.  `keep(atom_text)` filters which guard atoms are retained."""
+        g = g or self.cfg(fi, "plain")
+        nodes = g.nodes_of(at) if not isinstance(at, Node) else [at]
+        if not nodes:
+            raise AnalysisError("rvalues: statement has no CFG node")
+        target = nodes[0]
+        paths = g.enum_paths(start or g.entry, {target}, skip_labels=lambda l: is_exc(l) or is_back(l))
+        out: List[Tuple[Conj, str]] = []
+        for path in paths:
+            conj: List[Conj] = [frozenset()]
+            last: Dict[str, ast.expr] = {}
+            dead = False
+            for (n, l) in path[:-1]:
+                if n.kind == "test" and cfgm.branch_of(l):
+                    conj = _and_all([conj, self.dnf(n.ast, cfgm.branch_of(l) == "T", fi)])
+                    if not conj:
+                        dead = True
+                        break
+                elif n.kind == "stmt" and isinstance(n.ast, (ast.Assign, ast.AnnAssign)) and n.ast.value is not None:
+                    tg = n.ast.targets[0] if isinstance(n.ast, ast.Assign) and len(n.ast.targets) == 1 else (n.ast.target if isinstance(n.ast, ast.AnnAssign) else None)
+                    if isinstance(tg, ast.Name):
+                        # call results are not propagated (a call is an effect, and its text would hide the local's role)
+                        if any(isinstance(x, ast.Call) for x in ast.walk(n.ast.value)):
+                            last.pop(tg.id, None)
+                        else:
+                            last[tg.id] = n.ast.value
+            if dead:
+                continue
+
+            def subst(x: ast.expr, d: int) -> ast.expr:
+                if d <= 0:
+                    return x
+
+                class T(ast.NodeTransformer):
+                    def visit_Name(self, nm):
+                        if isinstance(nm.ctx, ast.Load) and nm.id in last:
+                            return subst(copy.deepcopy(last[nm.id]), d - 1)
+                        return nm
+
+                    def visit_Lambda(self, nm):
+                        return nm
+                return T().visit(copy.deepcopy(x))
+            val = subst(e, depth)
+            for (extra, v) in _split_ifexp(self, val, fi):
+                for c1 in conj:
+                    for e2 in extra:
+                        c2 = c1 | e2
+                        if _consistent(c2):
+                            if keep is not None:
+                                c2 = frozenset(a for a in c2 if keep(a[0]))
+                            out.append((frozenset(c2), norm(canon(v))))
+        by_val: Dict[str, List[Conj]] = {}
+        for c, v in out:
+            by_val.setdefault(v, []).append(c)
+        res = []
+        for v, cs in by_val.items():
+            for c in _simplify(cs):
+                res.append((c, v))
+        return sorted(res, key=lambda t: (t[1], sorted(t[0])))
 
     def cvalues(self, fi: FunctionInfo, name: str, g: Optional[CFG] = None, start: Optional[Node] = None,
                 stop: Iterable[str] = ()) -> List[Tuple[Conj, str]]:
@@ -555,6 +620,60 @@ class _Rename(ast.NodeTransformer):
         if n.id in self.ren:
             return ast.copy_location(ast.Name(id=self.ren[n.id], ctx=n.ctx), n)
         return n
+
+
+def strparts(e: ast.expr) -> Optional[List[str]]:
+    """A string-building expression as a list of concatenated parts (texts of the non-literal
+    parts, repr of literals): handles `a + b`, `'{}{}.{}'.format(a, b, c)`, f-strings."""
+    if isinstance(e, ast.BinOp) and isinstance(e.op, ast.Add):
+        l, r = strparts(e.left), strparts(e.right)
+        return None if l is None or r is None else _merge_lits(l + r)
+    if isinstance(e, ast.Constant) and isinstance(e.value, str):
+        return [repr(e.value)] if e.value else []
+    if isinstance(e, ast.JoinedStr):
+        out: List[str] = []
+        for v in e.values:
+            if isinstance(v, ast.Constant):
+                out.append(repr(v.value))
+            elif isinstance(v, ast.FormattedValue) and v.format_spec is None and v.conversion in (-1, 115):
+                sub = strparts(v.value)
+                out.extend(sub if sub is not None and not (len(sub) == 1 and sub[0] == norm(v.value)) else ["str(%s)" % norm(v.value) if not norm(v.value).startswith("str(") else norm(v.value)])
+            else:
+                return None
+        return _merge_lits(out)
+    if isinstance(e, ast.Call) and isinstance(e.func, ast.Attribute) and e.func.attr == "format" and isinstance(e.func.value, ast.Constant) \
+            and isinstance(e.func.value.value, str) and not e.keywords:
+        import string
+        out = []
+        args = list(e.args)
+        i = 0
+        try:
+            for lit, field, spec, conv in string.Formatter().parse(e.func.value.value):
+                if lit:
+                    out.append(repr(lit))
+                if field is None:
+                    continue
+                if field != "" or spec or conv:
+                    return None
+                if i >= len(args):
+                    return None
+                sub = strparts(args[i])
+                out.extend(sub if sub is not None else [norm(args[i])])
+                i += 1
+        except ValueError:
+            return None
+        return _merge_lits(out)
+    return [norm(e)]
+
+
+def _merge_lits(parts: List[str]) -> List[str]:
+    out: List[str] = []
+    for p_ in parts:
+        if out and out[-1].startswith("'") and p_.startswith("'"):
+            out[-1] = repr(eval(out[-1]) + eval(p_))  # both are reprs of str literals produced above
+        else:
+            out.append(p_)
+    return out
 
 
 def canon(e: ast.AST) -> ast.AST:
